@@ -30,7 +30,8 @@ ID = "C16"
 LEVEL = "exploration"
 RULE = (
     "one case = (parameter set, seed, process environment): full transcript (model + answers to the request "
-    "battery - every SID x payload length 0..2 over boundary bytes and the model's sub-functions, structured ISO "
+    "battery - every SID x payload length 0..1, payload length 2 for every SID the model or ISO knows, over boundary "
+    "bytes and the model's sub-functions with/without suppress bit, structured ISO "
     "requests, requests serialised by gallia's request classes - in each offered session, reached by "
     "DiagnosticSessionControl from session 1 on a fresh server, + SecurityAccess unlock / wrong key / reset "
     "histories) compared with the transcript of the reference environment. evaluations = answer lines compared; "
@@ -41,7 +42,8 @@ ASSUMPTIONS = [
     "children run the unmodified gallia code; only gallia.services.uds.server.time is replaced by a deterministic "
     "clock (two different epochs / request spacings below the 10 s inactivity limit)",
     "SecurityAccess seed bytes are masked in requestSeed replies and in the sendKey request that echoes them; a "
-    "requestSeed that happens to return an empty seed is repeated (the repeat count is not part of the transcript)",
+    "requestSeed that happens to return an empty seed is repeated, and so is one whose seed equals the key of the "
+    "next battery request (the repeat count is not part of the transcript)",
     "PYTHONHASHSEED=random children make the check as strong as their luck; the fixed hash seeds 0/1/4242 decide",
     "quick tier: battery in at most 3 sessions per model (session 1 first), thorough: all sessions",
 ]
@@ -143,7 +145,15 @@ def _child(spec: dict[str, Any]) -> None:
             for s, d in sorted(srv.supported_services.items())
         }
 
-    def ask(tr: Any, q: bytes) -> tuple[bytes | None, str]:
+    def ask(tr: Any, q: bytes, deliberate: bool = False) -> tuple[bytes | None, str]:
+        # A battery key that happens to equal the fresh random seed would make the sendKey outcome (and nothing
+        # else) depend on the seed: draw another seed first (same masked transcript line, not recorded).
+        if q[0] == 0x27 and len(q) > 2 and (q[1] & 0x7F) % 2 == 0 and not deliberate:
+            for _ in range(64):
+                last = getattr(tr.server.state, "last_sa_response", None)
+                if last is None or last.security_access_type + 1 != q[1] & 0x7F or bytes(last.security_seed) != q[2:]:
+                    break
+                vc.drive(tr.handle_request(bytes([0x27, last.security_access_type])))
         try:
             r, _ = vc.drive(tr.handle_request(q))
         except Exception as e:  # noqa: BLE001 - part of the transcript (C14 judges it)
@@ -161,7 +171,7 @@ def _child(spec: dict[str, Any]) -> None:
         srv_again, _ = new_server()
         m = ref.Model({int(s, 16): {int(k, 16): v for k, v in d.items()} for s, d in model.items()})
         gen, _notes = vc.codec_generated()
-        battery = list(dict.fromkeys(vc.short_alphabet(m, wide=False) + vc.structured(m) + gen))
+        battery = list(dict.fromkeys(vc.short_alphabet(m, wide=False, two_for_unknown=False) + vc.structured(m) + gen))
         battery.sort(key=lambda q: (q[0] in (0x10, 0x11), ))  # state changing services last (stable sort)
         blocks: dict[str, str] = {}
         lines_all: dict[str, list[str]] = {}
@@ -216,7 +226,7 @@ def _child(spec: dict[str, Any]) -> None:
                         seedb = r[2:]
                         break
                 lines.append(f"27{t:02x} {shown}")
-                r, shown = ask(tr, bytes([0x27, t + 1]) + seedb)
+                r, shown = ask(tr, bytes([0x27, t + 1]) + seedb, deliberate=True)
                 lines.append(f"27{t + 1:02x}<seed> {shown}")
                 lines.append(f"STATE session={srv.state.session} level={srv.state.security_access_level}")
                 for q in (bytes.fromhex("22f186"), bytes.fromhex("3e00"), bytes([0x27, t + 1, 0]), bytes([0x27, t]), bytes([0x27, t + 1]) + b"\xff" * 64, bytes.fromhex("1101"), bytes.fromhex("22f186"), bytes.fromhex("1001"), bytes.fromhex("22f186")):
@@ -256,7 +266,7 @@ def run_child(env: tuple[Any, ...], params: dict[str, Any], seeds: list[int], fu
 
 def _bounds(tier: str) -> tuple[list[tuple[Any, ...]], int, int, int, int | None]:
     if tier == "quick":
-        return ENVS_QUICK, 24, 4, 8, 3
+        return ENVS_QUICK, 24, 3, 8, 3
     return ENVS_THOROUGH, 512, 32, 32, None
 
 
